@@ -573,6 +573,31 @@ func checkQuorumStores(c *core.Ctx, rule string) {
 			if okArg {
 				inner := arg[4 : len(arg)-1]
 				sameShare := base != "" && (inner == base+".Committee" || strings.HasSuffix(inner, ".Committee") && strings.HasPrefix(base, strings.TrimSuffix(inner, ".Committee")))
+				if sameShare && !strings.HasPrefix(base, "p") {
+					// a share built in this function: its Committee must have been assigned before it is measured
+					sameShare = false
+					for _, b := range s.Encl.Blocks {
+						for idx, in := range b.Instrs {
+							st2, ok := in.(*ssa.Store)
+							if !ok {
+								continue
+							}
+							fa2, ok := st2.Addr.(*ssa.FieldAddr)
+							if !ok || fieldName(fa2) != "Committee" {
+								continue
+							}
+							if b == st.Block() {
+								for j, in2 := range b.Instrs {
+									if in2 == ssa.Instruction(st) && idx < j {
+										sameShare = true
+									}
+								}
+							} else if b.Dominates(st.Block()) {
+								sameShare = true
+							}
+						}
+					}
+				}
 				if !sameShare {
 					// or the slice is stored as this share's committee in the same function
 					for _, b := range s.Encl.Blocks {
